@@ -85,6 +85,75 @@ fn text_grid() -> Vec<V> {
     ts.iter().enumerate().map(|(i, b)| { let s = String::from_utf8(b.clone()).unwrap(); V { d: DataType::Blob(Blob::from(s.clone())), ty: "text", cls: "text", rank: i as i64 + 1, frank: i as i64 + 1, nan: false, negzero: false, sql: Some(format!("'{s}'")) } }).collect()
 }
 
+/// exact order of numbers of any column type (no rounding): integers as i128, doubles compared through their integral and fractional parts
+fn num_cmp(a: &DataType, b: &DataType) -> std::cmp::Ordering {
+    use std::cmp::Ordering::*;
+    #[derive(Clone, Copy)]
+    enum N { I(i128), F(f64) }
+    let n = |d: &DataType| match d { DataType::Int(v) => N::I(v.0 as i128), DataType::BigInt(v) => N::I(v.0 as i128), DataType::UInt(v) => N::I(v.0 as i128), DataType::BigUInt(v) => N::I(v.0 as i128),
+        DataType::Float(v) => N::F(v.0 as f64), DataType::Double(v) => N::F(v.0), _ => N::I(0) };
+    let if_cmp = |i: i128, f: f64| -> std::cmp::Ordering {
+        if f == f64::INFINITY { return Less; } if f == f64::NEG_INFINITY { return Greater; }
+        let t = f.trunc();
+        if t >= 1.0e38 { return Less; } if t <= -1.0e38 { return Greater; }
+        let ti = t as i128;   // exact: |t| < 1e38 and t is integral
+        match i.cmp(&ti) { Equal => { let fr = f - t; if fr > 0.0 { Less } else if fr < 0.0 { Greater } else { Equal } } o => o }
+    };
+    match (n(a), n(b)) {
+        (N::I(x), N::I(y)) => x.cmp(&y),
+        (N::F(x), N::F(y)) => x.partial_cmp(&y).unwrap_or(Equal),
+        (N::I(x), N::F(y)) => if_cmp(x, y),
+        (N::F(x), N::I(y)) => if_cmp(y, x).reverse(),
+    }
+}
+fn to_double(d: &DataType) -> f64 {
+    match d { DataType::Int(v) => v.0 as f64, DataType::BigInt(v) => v.0 as f64, DataType::UInt(v) => v.0 as f64, DataType::BigUInt(v) => v.0 as f64, DataType::Float(v) => v.0 as f64, DataType::Double(v) => v.0, _ => 0.0 }
+}
+
+/// seeded values away from the boundary grid (thorough tier)
+fn extra_values(seed: u64, n: usize) -> Vec<V> {
+    use rand::Rng;
+    let mut r = crate::util::rng(seed, 19);
+    let mut out = vec![];
+    let mk = |d: DataType, ty: &'static str, cls: &'static str, sql: Option<String>| V { d, ty, cls, rank: 0, frank: 0, nan: false, negzero: false, sql };
+    for _ in 0..n {
+        match r.random_range(0..8) {
+            0 => { let v = r.random::<i32>(); out.push(mk(DataType::Int(Int32(v)), "int", "num", Some(v.to_string()))); }
+            1 => { let v = r.random::<i64>() >> r.random_range(0..40); out.push(mk(DataType::BigInt(Int64(v)), "bigint", "num", if v.unsigned_abs() < (1 << 53) { Some(v.to_string()) } else { None })); /* larger literals are rounded by the parser to values outside the grid */ }
+            2 => { let v = r.random::<u64>() >> r.random_range(0..40); out.push(mk(DataType::BigUInt(UInt64(v)), "biguint", "num", if v < (1 << 53) { Some(v.to_string()) } else { None })); }
+            3 => { let v = (r.random::<i64>() >> r.random_range(0..50)) as f64 / [1.0, 2.0, 4.0, 1024.0][r.random_range(0..4)]; out.push(mk(DataType::Double(Float64(v)), "double", "num", None)); }
+            4 => { let v = (r.random::<i32>() >> r.random_range(0..20)) as f32 / [1.0f32, 2.0, 8.0][r.random_range(0..3)]; out.push(mk(DataType::Float(Float32(v)), "float", "num", None)); }
+            5 => { let v = r.random::<u32>(); out.push(mk(DataType::UInt(UInt32(v)), "uint", "num", Some(v.to_string()))); }
+            _ => { let n = r.random_range(0..40); let s: String = (0..n).map(|_| ['a', 'b', 'c', 'z', ' ', 'é'][r.random_range(0..6)]).collect(); out.push(mk(DataType::Blob(Blob::from(s.clone())), "text", "text", Some(format!("'{s}'")))); }
+        }
+    }
+    out
+}
+
+/// ranks by exact comparison over the whole set (the hand-ordered table above only supplies the values)
+fn assign_ranks(g: &mut Vec<V>) {
+    for cls in ["num", "text"] {
+        let idx: Vec<usize> = (0..g.len()).filter(|i| g[*i].cls == cls && !g[*i].nan).collect();
+        let cmp = |a: &usize, b: &usize| if cls == "num" { num_cmp(&g[*a].d, &g[*b].d) } else { match (&g[*a].d, &g[*b].d) { (DataType::Blob(x), DataType::Blob(y)) => x.to_string_lossy_unchecked().as_bytes().cmp(y.to_string_lossy_unchecked().as_bytes()), _ => std::cmp::Ordering::Equal } };
+        let mut order = idx.clone();
+        order.sort_by(|a, b| cmp(a, b));
+        let mut rank = 0i64;
+        let mut ranks = vec![0i64; g.len()];
+        for (k, i) in order.iter().enumerate() { if k == 0 || cmp(&order[k - 1], i) != std::cmp::Ordering::Equal { rank += 1; } ranks[*i] = rank; }
+        // rank after rounding to a double
+        let mut franks = ranks.clone();
+        if cls == "num" {
+            let mut o2 = idx.clone();
+            o2.sort_by(|a, b| to_double(&g[*a].d).partial_cmp(&to_double(&g[*b].d)).unwrap());
+            let mut fr = 0i64;
+            for (k, i) in o2.iter().enumerate() { if k == 0 || to_double(&g[o2[k - 1]].d) != to_double(&g[*i].d) { fr += 1; } franks[*i] = fr; }
+        }
+        let top = rank + 1;
+        let ftop = franks.iter().copied().max().unwrap_or(0) + 1;
+        for i in 0..g.len() { if g[i].cls == cls { if g[i].nan { g[i].rank = top; g[i].frank = ftop; } else { g[i].rank = ranks[i]; g[i].frank = franks[i]; } } }
+    }
+}
+
 fn grid() -> Vec<V> {
     let mut g = numeric_grid();
     g.extend(text_grid());
@@ -120,7 +189,13 @@ pub fn main(a: &Args) -> i32 {
     std::panic::set_hook(Box::new(|_| {}));
     let mut t = Trace::create(std::path::Path::new(&a.str("out", "/verif/work/values.ndjson")));
     t.lazy = true;
-    let g = grid();
+    let mut g = grid();
+    let extra = a.num("extra", 0) as usize;
+    if extra > 0 { let nulls = g.pop().unwrap(); g.extend(extra_values(a.num("seed", 1), extra)); g.push(nulls); }
+    // cross-check of the hand-ordered table: ranks are recomputed by exact comparison over everything
+    let hand: Vec<(i64, i64)> = g.iter().map(|v| (v.rank, v.frank)).collect();
+    assign_ranks(&mut g);
+    for (i, v) in g.iter().enumerate() { if extra == 0 && v.cls == "num" && (v.rank, v.frank) != hand[i] { eprintln!("rank table disagrees with exact comparison at value {} ({:?}): hand {:?} exact {:?}", i + 1, v.d, hand[i], (v.rank, v.frank)); return 2; } }
     for (i, v) in g.iter().enumerate() {
         t.ev(json!({"ev": "val", "id": i + 1, "ty": v.ty, "cls": v.cls, "rank": v.rank, "frank": v.frank, "nan": v.nan, "negzero": v.negzero}));
     }
